@@ -452,10 +452,30 @@ fn check_type_fault(ctx: &mut Ctx, r: &mut Rng, idx: u64) {
                     && defs.iter().filter(|(n, _)| n == name).any(|(_, id)| {
                         printed.span_of(*id).is_some_and(|s| {
                             let (a0, b0) = strip_matching_parens(src, s.start, s.end);
+                            // every way of dropping some leading `(` and some trailing `)`
                             let inner = &src[a0..b0];
-                            let a1 = a0 + (inner.len() - inner.trim_start_matches(|c: char| c == '(' || c.is_whitespace()).len());
-                            let b1 = b0 - (inner.len() - inner.trim_end_matches(|c: char| c == ')' || c.is_whitespace()).len());
-                            [(a1, b0), (a0, b1), (a1, b1)].iter().any(|(a, b)| a < b && (*a, *b) != (a0, b0) && rlisting(src, *a, *b).as_deref() == Some(ex))
+                            let mut starts = vec![a0];
+                            let mut pos = 0;
+                            for (i, c) in inner.char_indices() {
+                                if c == '(' {
+                                    pos = i + 1;
+                                    starts.push(a0 + pos);
+                                } else if !c.is_whitespace() {
+                                    break;
+                                } else if pos == i {
+                                    pos = i + c.len_utf8();
+                                }
+                            }
+                            let mut ends = vec![b0];
+                            for (i, c) in inner.char_indices().rev() {
+                                if c == ')' {
+                                    ends.push(a0 + i);
+                                } else if !c.is_whitespace() {
+                                    break;
+                                }
+                            }
+                            let starts2: Vec<usize> = starts.iter().map(|p| p + (src[*p..b0].len() - src[*p..b0].trim_start().len())).collect();
+                            starts2.iter().any(|a| ends.iter().any(|b| a < b && (*a, *b) != (a0, b0) && rlisting(src, *a, *b).as_deref() == Some(ex)))
                         })
                     });
                 if ok {
